@@ -1,9 +1,35 @@
 import Shisui.Permits
+import Shisui.PermitsFlow
 import Driver.Util
 /-! C16 driver: the slot controller (step equality with `Pm.step`, two independent pools), and the "slot comes back"
     outcome of every scripted offer outcome on real protocol instances. -/
 namespace Drv.C16
 open Drv Pm
+
+/-- the scripted outcome kinds of the harness as paths of the model's exit table (`none`: the transfer is still going on) -/
+def outOfKind : String → Option (Option Out)
+  | "empty" => some (some .emptyResp)
+  | "wrongcode" => some (some .notAccept)
+  | "undecodable" | "truncated" => some (some .parseErr)
+  | "wrongcount_declined" | "wrongcount_accepting" | "shortcount_accepting" => some (some .lenMismatch)
+  | "all_declined" => some (some .declined)
+  | "accepted_after_stop" => some (some .shutdown)
+  | "accepted_in_progress" => some none
+  | _ => none
+
+def inOfKind : String → Option (Option In)
+  | "pending" => some none
+  | "stop_while_waiting" | "offer_after_stop" => some (some .shutdown)
+  | "peer_silent" => some (some .acceptFail)
+  | _ => none
+
+/-- free slots the pool model predicts after `n` offers took a slot and each ran the given path -/
+def freeAfter (limit n : Nat) (calls : Option (List Call)) : Nat :=
+  let acq := List.replicate n Step.acquire
+  let exits := match calls with
+    | none => []
+    | some cs => (List.range n).flatMap (fun i => stepsOfCalls i cs)
+  (run limit (acq ++ exits)).avail
 
 structure PState where
   inb : Sys
@@ -77,7 +103,9 @@ def step (toks : List String) (impl : String) : Res :=
     let kind := kv toks "kind"
     let first := if kind == "all_declined" || kind == "accepted_in_progress" || kind == "accepted_after_stop" then "ok" else "err"
     -- while an accepted transfer is in progress its slot is held (Pm: holding counts it); otherwise it is back
-    let expectFree := if kind == "accepted_in_progress" then limit - 1 else limit
+    let expectFree := match outOfKind kind with
+      | some path => freeAfter limit 1 (path.map outCalls)
+      | none => limit + 1000   -- a kind the exit table does not know: reported as a mismatch, never silently accepted
     { model := s!"{first} free={expectFree}",
       monitor := if kv it "free" != toString expectFree then [if kind == "accepted_in_progress" then "slot_held_while_transfer_in_progress" else "slot_returned_" ++ kind] else [],
       tags := ["procoffer", kind, "v" ++ kv toks "v"] }
@@ -102,7 +130,9 @@ def step (toks : List String) (impl : String) : Res :=
     let n := kvNat toks "n"
     let kind := kv toks "kind"
     let acc := ",".intercalate (List.replicate n "conn=1")
-    let expectFree := if kind == "pending" then limit - n else limit
+    let expectFree := match inOfKind kind with
+      | some path => freeAfter limit n (path.map inCalls)
+      | none => limit + 1000
     { model := s!"{acc} free={expectFree}",
       monitor := if kv it "free" != toString expectFree then [if kind == "pending" then "slot_held_while_waiting_for_connection" else "slot_returned_inbound_" ++ kind] else [],
       tags := ["inbound", kind] }
